@@ -301,7 +301,8 @@ class Dm1:
         lamp_status, dtc_dic_list = self._lamp_status, self._dtc_dic_list
         # iterate over a snapshot: a callback may unsubscribe itself
         for callback in list(self._subscribers):
-            callback(sa, lamp_status.copy(), dtc_dic_list.copy(), timestamp)
+            # (own copies for every subscriber, of the code dicts too)
+            callback(sa, lamp_status.copy(), [dict(dtc_dic) for dtc_dic in dtc_dic_list], timestamp)
 
 
 class Dm11:
